@@ -308,36 +308,58 @@ pub fn run_case(rig: &mut dyn Rig, c: &Case) -> Result<&'static str, Failure> {
     let mut store = [CANARY; 256];
     let size = c.buf.min(256);
     let r = catch(|| rig.fetch(c, &mut store[..size]));
-    let chip = CHIPS[c.chip];
     match r {
         Err(p) => Err(panic_failure(c.json(), &p)),
-        Ok(Fetch::NoPacket) => Ok("no-packet"),
-        Ok(Fetch::Err(text, mm)) => {
+        Ok(f) => judge_fetch(&Expect { case: &|| c.json(), chip: CHIPS[c.chip], want: c.expected_len(), off: c.off, size, implicit: c.implicit, fp_suffix: "" }, f, &store),
+    }
+}
+
+/// what a fetch has to deliver: the oracle of the property statement, independent of how the fetch was reached
+pub struct Expect<'a> {
+    /// case file a failure carries (built only when there is a failure)
+    pub case: &'a dyn Fn() -> Value,
+    pub chip: &'a str,
+    /// reported length (explicit header) / configured length (implicit header)
+    pub want: usize,
+    /// reported start offset / FIFO address
+    pub off: u8,
+    /// size of the caller's buffer
+    pub size: usize,
+    pub implicit: bool,
+    /// appended to every fingerprint ("" for the stateless enumeration)
+    pub fp_suffix: &'a str,
+}
+
+pub fn judge_fetch(x: &Expect<'_>, f: Fetch, store: &[u8]) -> Result<&'static str, Failure> {
+    let (chip, size, sfx) = (x.chip, x.size, x.fp_suffix);
+    match f {
+        Fetch::NoPacket => Ok("no-packet"),
+        Fetch::Err(text, mm) => {
             if let Some((a, b)) = mm {
                 if a <= b {
-                    return Err(Failure::new("rx-fetch", c.json(), format!("refused with {text} although {a} bytes fit a {b}-byte buffer")).with_fp(format!("rx-fetch/fits-but-size-mismatch/{chip}")));
+                    return Err(Failure::new("rx-fetch", (x.case)(), format!("refused with {text} although {a} bytes fit a {b}-byte buffer")).with_fp(format!("rx-fetch/fits-but-size-mismatch/{chip}{sfx}")));
                 }
             }
             Ok("error")
         }
-        Ok(Fetch::Ok(l)) => {
-            let want = c.expected_len();
+        Fetch::Ok(l) => {
+            let want = x.want;
             if l > size {
-                return Err(Failure::new("rx-fetch", c.json(), format!("returned length {l} exceeds the caller's {size}-byte buffer")).with_fp(format!("rx-fetch/len-exceeds-buffer/{chip}")));
+                return Err(Failure::new("rx-fetch", (x.case)(), format!("returned length {l} exceeds the caller's {size}-byte buffer")).with_fp(format!("rx-fetch/len-exceeds-buffer/{chip}{sfx}")));
             }
             if l != want {
-                let fp = if c.implicit { "rx-fetch/implicit-length-not-configured" } else { "rx-fetch/length-not-reported" };
-                return Err(Failure::new("rx-fetch", c.json(), format!("returned length {l}, expected {want} ({})", if c.implicit { "configured length, implicit header" } else { "reported length" })).with_fp(format!("{fp}/{chip}")));
+                let fp = if x.implicit { "rx-fetch/implicit-length-not-configured" } else { "rx-fetch/length-not-reported" };
+                return Err(Failure::new("rx-fetch", (x.case)(), format!("returned length {l}, expected {want} ({})", if x.implicit { "configured length, implicit header" } else { "reported length" })).with_fp(format!("{fp}/{chip}{sfx}")));
             }
             for i in 0..l {
-                let w = pat((c.off as usize + i) & 0xFF);
+                let w = pat((x.off as usize + i) & 0xFF);
                 if store[i] != w {
-                    return Err(Failure::new("rx-fetch", c.json(), format!("byte {i} is 0x{:02x}, chip buffer holds 0x{w:02x} at position {}", store[i], (c.off as usize + i) & 0xFF)).with_fp(format!("rx-fetch/wrong-bytes/{chip}")));
+                    return Err(Failure::new("rx-fetch", (x.case)(), format!("byte {i} is 0x{:02x}, chip buffer holds 0x{w:02x} at position {}", store[i], (x.off as usize + i) & 0xFF)).with_fp(format!("rx-fetch/wrong-bytes/{chip}{sfx}")));
                 }
             }
             for (i, b) in store.iter().enumerate().skip(l) {
                 if *b != CANARY {
-                    return Err(Failure::new("rx-fetch", c.json(), format!("byte {i} beyond the returned length {l} was overwritten with 0x{b:02x}")).with_fp(format!("rx-fetch/touched-beyond-length/{chip}")));
+                    return Err(Failure::new("rx-fetch", (x.case)(), format!("byte {i} beyond the returned length {l} was overwritten with 0x{b:02x}")).with_fp(format!("rx-fetch/touched-beyond-length/{chip}{sfx}")));
                 }
             }
             Ok("ok")
@@ -348,6 +370,9 @@ pub fn run_case(rig: &mut dyn Rig, c: &Case) -> Result<&'static str, Failure> {
 pub fn replay(case: &Value, _kf: &KnownFindings) -> Result<(), Failure> {
     if case["kind"] == "rxfetch-mac" {
         return super::c18_mac::replay(case);
+    }
+    if case["kind"] == "history" {
+        return super::c18_hist::replay(case);
     }
     let Some(c) = Case::from_json(case) else {
         return Err(Failure::new("bad-replay", case.clone(), "not a C18 case"));
@@ -393,8 +418,9 @@ pub fn run(ctx: &mut Ctx) {
     // the quick tier takes 3 of the status bytes and 2 of the interrupt-flag sets: only thorough covers the stated space
     ctx.exhaustive = full;
     ctx.rule = format!(
-        "(VERIF_SEED does not influence this check: every case is enumerated) exhaustive enumeration on chip doubles (SX1262, SX1276, SX1272) whose 256-byte buffer/FIFO holds a position-dependent pattern and wraps: explicit header: every reported length 0..=255 (configured maximum 255, length-1 and length/2) x every offset 0..=255 x caller buffer sizes {{0,1,12,64,255,256}} x {{status bytes (SX126x), kind path}} / {{interrupt-flag sets x Single/Continuous, LoRa::rx and get_rx_result}} / {{LorawanRadio::rx_single, rx_continuous}}; implicit header (kind and LoRa paths): every configured length 0..=255 x every offset x the 6 buffer sizes x decoy reported lengths {{0, 255, configured+1}}. {} HAND-OVER to the MAC: authentic downlinks (reference codec) of 13..=255 bytes reported by the chip double at several offsets (incl. wrap-around) in RX1 of a real async_device::Device on top of LorawanRadio with radio buffers of 64, 255 and 256 bytes; a frame that fits must be delivered with exactly the plaintext that was sent, a longer one must give an error or no downlink. One evaluation = one fetch into a canary-filled buffer (or one such uplink+downlink transaction). Non-trivial (distinct by construction): effective length > buffer, or offset+length > 256 (wrap), or length 0, or an error status / CRC-error / no-RxDone interrupt set",
-        if full { "thorough: 12 status bytes (all 8 command-status values), 5 interrupt-flag sets." } else { "quick: 3 status bytes (good, execution failure, timeout), 2 interrupt-flag sets." }
+        "(VERIF_SEED only selects the random histories of the stateful stage; everything else is enumerated) STATELESS: exhaustive enumeration on chip doubles (SX1262, SX1276, SX1272) whose 256-byte buffer/FIFO holds a position-dependent pattern and wraps: explicit header: every reported length 0..=255 (configured maximum 255, length-1 and length/2) x every offset 0..=255 x caller buffer sizes {{0,1,12,64,255,256}} x {{status bytes (SX126x), kind path}} / {{interrupt-flag sets x Single/Continuous, LoRa::rx and get_rx_result}} / {{LorawanRadio::rx_single, rx_continuous}}; implicit header (kind and LoRa paths): every configured length 0..=255 x every offset x the 6 buffer sizes x decoy reported lengths {{0, 255, configured+1}}. {} HAND-OVER to the MAC: authentic downlinks (reference codec) of 13..=255 bytes reported by the chip double at several offsets (incl. wrap-around) in RX1 of a real async_device::Device on top of LorawanRadio with radio buffers of 64, 255 and 256 bytes; a frame that fits must be delivered with exactly the plaintext that was sent, a longer one must give an error or no downlink. One evaluation = one fetch into a canary-filled buffer (or one such uplink+downlink transaction). Non-trivial (distinct by construction): effective length > buffer, or offset+length > 256 (wrap), or length 0, or an error status / CRC-error / no-RxDone interrupt set.{}",
+        if full { "thorough: 12 status bytes (all 8 command-status values), 5 interrupt-flag sets." } else { "quick: 3 status bytes (good, execution failure, timeout), 2 interrupt-flag sets." },
+        super::c18_hist::RULE
     );
     ctx.assumptions = vec![
         "chip doubles: SX126x GetRxBufferStatus (0x13) = status, PayloadLengthRx, RxStartBufferPointer; ReadBuffer (0x1E) wraps at 256; payload-length register 0x0702 holds the configured length; SX127x RegRxNbBytes (0x13), RegFifoRxCurrentAddr (0x10), FIFO pointer RegFifoAddrPtr wraps at 256".into(),
@@ -402,6 +428,7 @@ pub fn run(ctx: &mut Ctx) {
         "in explicit-header mode the returned length must equal the reported length, in implicit-header mode the configured one".into(),
         "an Err(PayloadSizeMismatch(l, n)) with l <= n is counted as a violation (the error contradicts itself); any other error is accepted unconditionally, as the statement allows; buffer content after an error is not judged".into(),
         "the LoRaWAN adapter always configures explicit header / 255 bytes, so implicit mode is not reachable through it".into(),
+        "stateful stage: 'the configured length' is the one in the packet parameters of the judged reception (the last prepare_for_rx / set_packet_params), whatever the same driver instance was asked before; a judged reception that is refused before the receiver starts is not judged; errors of prefix operations are tolerated".into(),
     ];
     ctx.parallel(|ti, n, st| {
         let mut k = 0u64;
@@ -494,4 +521,6 @@ pub fn run(ctx: &mut Ctx) {
     });
     // the last hop: LorawanRadio -> the device's radio buffer -> MAC
     super::c18_mac::run(ctx);
+    // receptions as the last step of a history on one driver instance
+    super::c18_hist::stage(ctx);
 }
